@@ -616,7 +616,7 @@ class Expander:
 
     # -------------------------------------------------------------- calls
     FUNCS1 = {"exp": anf.exp_, "log": anf.log_, "sqrt": anf.sqrt_, "erf": anf.erf_,
-              "erfcx": anf.erfcx_, "log1p": anf.log1p_, "cos": anf.cos_, "tanh": anf.tanh_,
+              "erfcx": anf.erfcx_, "log1p": anf.log1p_, "expm1": anf.expm1_, "cos": anf.cos_, "tanh": anf.tanh_,
               "abs": anf.abs_, "absolute": anf.abs_, "fabs": anf.abs_}
 
     def eval_call(self, node, env):
